@@ -44,114 +44,11 @@ def body(chk, db, cfgname):
             r1.bad(site, f.loc(J), "terms are not filtered by |Residue| > MatrixElementTolerance (documented drop threshold)", cfgname)
 
     r2 = chk.rule("C01-R2", "block stripe binding in GreensFunction::prepare: parts are built from the blocks the operators connect", "F5 index spaces", 3)
-    g = db.fn(GF + "::prepare", nparams=0)
-    gctx = Ctx(g, db)
-    gat = guard_facts(g, gctx)
-    news = [j for j, n in g.walk(g.body) if n["k"] == "new" and n["at"] == GFP]
-    if len(news) != 1:
-        raise AnalysisBroken("GreensFunction::prepare: expected one 'new GreensFunctionPart'")
-    N = news[0]
-    fa = gat.get(g.cfg.pos1(N), frozenset())
-    _, rw = canon([x for x in fa if x[0] == "=="])
-    nk = gctx.key(N)
-    args = [rw(strip_cast(a)) for a in nk[2][2:]]
-    Cm, CXm = fld(GF + "::C"), fld(GF + "::CX")
-    # iterators over the bimap views
-    its = {}
-    for d, v in gctx.decls.items():
-        if v.get("init") is None:
-            continue
-        k = gctx.key(v["init"])
-        maps = lambda op_: (("field", "Pomerol::FieldOperator::LeftRightBlocks", op_), ("mcall", "Pomerol::FieldOperator::getBlockMapping", op_))
-        if k[0] == "mcall" and k[1].endswith("::begin") and k[2][0] == "field" and k[2][1].endswith("::left") and k[2][2] in maps(Cm):
-            its["C"] = ("var", d, v["n"])
-        if k[0] == "mcall" and k[1].endswith("::begin") and k[2][0] == "field" and k[2][1].endswith("::right") and k[2][2] in maps(CXm):
-            its["CX"] = ("var", d, v["n"])
-    site = GF + "::prepare:bimap-views"
-    if set(its) != {"C", "CX"}:
-        r2.bad(site, g.loc(), "the walk does not run over the LEFT view of c's block map and the RIGHT view of c^+'s block map (found %s)" % sorted(its), cfgname)
-    else:
-        r2.ok(site, g.loc(), "Citer over C.getBlockMapping().left, CXiter over CX.getBlockMapping().right", cfgname)
-        Ci, CXi = its["C"], its["CX"]
-
-        def pf(it, which):
-            return [("field", "std::pair::" + which, ("op", "->", it))] + [("field", q, ("op", "->", it)) for q in ()]
-
-        def memb(it, which):
-            # bimap view iterators expose ->first / ->second
-            out = []
-            for fa_ in fa:
-                pass
-            return None
-        # identify the four block variables by the member they read
-        def blk(it, which):
-            cands = set()
-            for d, v in gctx.decls.items():
-                if v.get("init") is None:
-                    continue
-                k = gctx.key(v["init"], inline=False)
-                k = strip_conv(k)
-                if k[0] == "field" and k[1].endswith("::" + which) and k[2] in (("op", "->", it), ("op", "*", it)):
-                    cands.add(("var", d, v["n"]))
-            return cands
-        # keys are inlined in `args`; build expected keys from the inlined initialisers
-        def inl(it, which):
-            for d, v in gctx.decls.items():
-                if v.get("init") is None:
-                    continue
-                k0 = strip_conv(gctx.key(v["init"], inline=False))
-                if k0[0] == "field" and k0[1].endswith("::" + which) and k0[2] in (("op", "->", it), ("op", "*", it)):
-                    return rw(strip_cast(gctx.key(v["init"])))
-            return None
-        Lb = inl(Ci, "first")     # left block of c  = outer space
-        Rb = inl(Ci, "second")    # right block of c = inner space
-        CXr = inl(CXi, "first")   # right view: first = right block of c^+
-        CXl = inl(CXi, "second")
-        site = GF + "::prepare:stripe-test"
-        if None in (Lb, Rb, CXr, CXl):
-            raise AnalysisBroken("GreensFunction::prepare: block variables are not read from ->first/->second of the two iterators")
-        if Lb == CXr and Rb == CXl:
-            r2.ok(site, g.loc(N), "part is created under left(c) == right(c^+) and right(c) == left(c^+)", cfgname)
-        else:
-            miss = []
-            if Lb != CXr:
-                miss.append("left block of c == right block of c^+")
-            if Rb != CXl:
-                miss.append("right block of c == left block of c^+")
-            r2.bad(site, g.loc(N), "a part is created without the test %s: c and c^+ parts of different block pairs are combined" % " and ".join(miss), cfgname)
-        want = [("mcall", "Pomerol::FieldOperator::getPartFromLeftIndex", Cm, Lb), ("mcall", "Pomerol::FieldOperator::getPartFromRightIndex", CXm, Lb),
-                ("mcall", "Pomerol::Hamiltonian::getPart", fld(GF + "::H"), Rb), ("mcall", "Pomerol::Hamiltonian::getPart", fld(GF + "::H"), Lb),
-                ("mcall", "Pomerol::DensityMatrix::getPart", fld(GF + "::DM"), Rb), ("mcall", "Pomerol::DensityMatrix::getPart", fld(GF + "::DM"), Lb)]
-        names = ["C part (left index = outer block)", "CX part (right index = outer block)", "HpartInner = H(right block of c)", "HpartOuter = H(left block of c)",
-                 "DMpartInner = DM(right block of c)", "DMpartOuter = DM(left block of c)"]
-        site = GF + "::prepare:part-arguments"
-        bad = [names[i] for i in range(6) if i >= len(args) or un_ptr(args[i]) != want[i]]
-        if bad:
-            r2.bad(site, g.loc(N), "GreensFunctionPart is constructed with wrong block data for: %s" % "; ".join(bad), cfgname)
-        else:
-            r2.ok(site, g.loc(N), "(C[L], CX[..,L], H[R], H[L], DM[R], DM[L]) with L = left block of c (outer), R = right block (inner)", cfgname)
-    # constructor maps parameters to the members of the same role
-    ctor = [x for x in db.fns_named(GFP + "::GreensFunctionPart") if x.kind == "ctor" and len(x.params) == 6]
-    if len(ctor) != 1:
-        raise AnalysisBroken("GreensFunctionPart constructor not found")
-    c = ctor[0]
-    cctx = Ctx(c, db)
-    order = ["C", "CX", "HpartInner", "HpartOuter", "DMpartInner", "DMpartOuter"]
-    site = GFP + "::GreensFunctionPart:member-binding"
-    bad = []
-    for i, nm in enumerate(order):
-        ini = [x for x in c.d.get("inits", []) if x.get("field") == nm]
-        if len(ini) != 1 or cctx.key(ini[0]["e"])[:2] != ("param", c.params[i]["d"]):
-            bad.append(nm)
-    if bad:
-        r2.bad(site, c.loc(), "constructor parameter %d.. is not stored in the member of the same role: %s" % (order.index(bad[0]) + 1, bad), cfgname)
-    else:
-        r2.ok(site, c.loc(), "parameters (C, CX, HpartInner, HpartOuter, DMpartInner, DMpartOuter) initialise the members of the same name", cfgname)
-
     r3 = chk.rule("C01-R3", "merge-walk discipline at block level and element level", "F1 pairing", 2)
+    c = lh.check_prepare(r2, r3, db, cfgname, GF, GFP, "C", "CX")
     if info:
         lh.check_walk(r3, cfgname, info, GFP + "::compute")
-    check_block_walk(r3, g, gctx, gat, cfgname, GF + "::prepare", N)
+    cctx = Ctx(c, db)
 
     r4 = chk.rule("C01-R4", "fermionic Matsubara grid: value at n is the value at i*pi*(2n+1)/beta", "F6 formula", 3)
     lh.check_matsubara(r4, db, cfgname, GF + "::operator()", True)
@@ -257,53 +154,6 @@ def body(chk, db, cfgname):
             r6.bad(site, o.loc(), "operator()(Indices) does not return the element stored under Indices", cfgname)
 
     chk.undecided.append("that the Lehmann sum equals -int_0^beta <T c(tau) c^+(0)> e^{iwt} dtau (taken from the documentation); numerical accuracy; Eigen's sparse kernels")
-
-
-def strip_cast(k):
-    while isinstance(k, tuple) and k[0] == "cast":
-        k = k[2]
-    return k
-
-
-def strip_conv(k):
-    k = strip_cast(k)
-    if k[0] == "ctor" and k[1] == "Pomerol::BlockNumber" and len(k) == 3:
-        return strip_conv(k[2])
-    return k
-
-
-def un_ptr(k):
-    return strip_cast(k)
-
-
-def check_block_walk(rule, g, gctx, gat, cfgname, name, N):
-    """a++ only under ka <= kb, b++ only under ka >= kb, match under ka == kb (block level)"""
-    site = name + ":walk"
-    incs = []
-    for j, n in g.walk(g.body):
-        if n["k"] == "call" and n["ck"] == "op" and n.get("op") == "++":
-            d = g.nodes[n["args"][0]]
-            if d["k"] == "ref":
-                incs.append((j, d["d"], d["n"]))
-    if len(incs) < 2:
-        raise AnalysisBroken("%s: expected two iterator increments, found %d" % (name, len(incs)))
-    by_it = {}
-    unguarded = []
-    for j, d, nm in incs:
-        fa = gat.get(g.cfg.pos1(j), frozenset())
-        rel = [x for x in fa if x[0] == "<=" and key_contains(x[1], lambda y: y[0] == "var") and key_contains(x[2], lambda y: y[0] == "var")]
-        mine = [x for x in rel if key_contains(x[1], lambda y: y[:2] == ("var", d))]
-        if not mine:
-            unguarded.append(nm)
-        by_it.setdefault(d, []).extend(mine)
-    good = not unguarded and len(by_it) == 2
-    if good:
-        a_, b_ = list(by_it.values())
-        good = any(x[1] == y[2] and x[2] == y[1] for x in a_ for y in b_)
-    if good:
-        rule.ok(site, g.loc(), "one iterator advances under ka <= kb, the other under kb <= ka (both on equality): no block pair is skipped, every iteration progresses", cfgname)
-    else:
-        rule.bad(site, g.loc(), "the two block iterators are not advanced under complementary non-strict comparisons of their keys (a block pair can be skipped, or the walk stalls on equal keys)", cfgname)
 
 
 if __name__ == "__main__":
